@@ -3,7 +3,7 @@
 # (/tmp/seed_<Cxx>/<k>/{patch.diff,demo.py,meta.json}) in the scratch worktree, run the check
 # against it, and keep it as /verif/seeded/<Cxx>_<k>/ with the outcome in confirmed.json / detected.json.
 pid="$1"; k="$2"; wt="${3:-/tmp/wt_$pid}"
-src="/tmp/seed_$pid/$k"; here="$(cd "$(dirname "$0")/.." && pwd)"
+src="${4:-/tmp/seed_$pid}/$k"; here="$(cd "$(dirname "$0")/.." && pwd)"
 n=$k; while [ -e "$here/seeded/${pid}_$n" ]; do n=$((n+10)); done
 dst="$here/seeded/${pid}_$n"
 mkdir -p "$dst"; cp "$src/patch.diff" "$src/demo.py" "$src/meta.json" "$dst/"
